@@ -56,8 +56,13 @@ def make_robot(trial, layout):
                 def getter(self):
                     TRACE.append(("fb", nm(self), fb))
                     if ("fb", nm(self) + "." + fb) in RAISE: raise Boom(fb)
-                    COUNTER[0] += 1; VALUES[(nm(self), fb)] = COUNTER[0]; return COUNTER[0]
-                getter.__name__ = fb; getter.__annotations__ = {"return": int}
+                    COUNTER[0] += 1
+                    if fb == "hist":      # the SAME list object, mutated in place between iterations (a publish-on-change cache would miss it)
+                        lst = self.__dict__.setdefault("_hist_list", [])
+                        lst.append(COUNTER[0]); del lst[:-3]
+                        VALUES[(nm(self), fb)] = list(lst); return lst
+                    VALUES[(nm(self), fb)] = COUNTER[0]; return COUNTER[0]
+                getter.__name__ = fb; getter.__annotations__ = {"return": (list[int] if fb == "hist" else int)}
                 return feedback(getter)
             for fb in spec["feedbacks"]:
                 ns[fb] = mk_getter(fb)
@@ -105,7 +110,7 @@ for trial in range(N):
     for i in range(ncomp):
         layout["comps"][f"c{i}"] = {"on_enable": rnd.random() < 0.7, "on_disable": rnd.random() < 0.7,
                                     "resets": {k: rnd.choice([0, False, "d"]) for k in rnd.sample(["inh_a", "own_b", "own_c"], rnd.randrange(0, 3))},
-                                    "feedbacks": rnd.sample(["get_x", "speed"], rnd.randrange(0, 3))}
+                                    "feedbacks": sorted(rnd.sample(["get_x", "hist", "speed"], rnd.randrange(0, 4)))}
     layout["same_class"] = rnd.random() < 0.25
     Robot, RAISE, VALUES = make_robot(trial, layout)
     robot = Robot(); robot.createObjects(); robot._automodes = Mock(); robot._automodes.modes = {}
@@ -163,15 +168,23 @@ for trial in range(N):
                 key = "x" if fb == "get_x" else fb
                 ent = nt.getEntry(f"/components/{cn}/{key}")
                 if ("fb", cn + "." + fb) not in RAISE:
-                    if ent.getValue().value() != VALUES[(cn, fb)]: fail(f"C11: /components/{cn}/{key} holds {ent.getValue().value()!r}, the getter returned {VALUES[(cn, fb)]}", layout)
+                    got_v = ent.getValue().value()
+                    if (list(got_v) if fb == "hist" else got_v) != VALUES[(cn, fb)]: fail(f"C11: /components/{cn}/{key} holds {ent.getValue().value()!r}, the getter returned {VALUES[(cn, fb)]}", layout)
     # a periodic-only iteration (disabled / test): no execute
     dp_sites = [("fb", c + "." + f) for c in comps for f in layout["comps"][c]["feedbacks"]] + [("robotPeriodic", "robot")]
     if run(robot._do_periodics, dp_sites) is None:
         check_iteration(layout, list(TRACE), fms, RAISE, False, VALUES, robot)
         if any(e[0] == "execute" for e in TRACE): fail("C05: execute() ran from _do_periodics", layout)
+        for cn, spec in layout["comps"].items():        # second publication of every feedback (a publish-on-change cache must not go stale)
+            for fb in spec["feedbacks"]:
+                if ("fb", cn + "." + fb) not in RAISE:
+                    key = "x" if fb == "get_x" else fb
+                    got_v = nt.getEntry(f"/components/{cn}/{key}").getValue().value()
+                    if (list(got_v) if fb == "hist" else got_v) != VALUES[(cn, fb)]:
+                        fail(f"C11: after the second iteration /components/{cn}/{key} holds {got_v!r}, the getter returned {VALUES[(cn, fb)]!r}", layout)
     dis_sites = [("on_disable", c) for c in comps if layout["comps"][c]["on_disable"]]
     if run(robot._on_mode_disable_components, dis_sites) is None:
         if [k for k in TRACE] != dis_sites: fail(f"C06: on_disable sequence {TRACE}, expected {dis_sites}", layout)
 set_ds(fms=False)
 print("not reproduced in", total, "robot layouts")
-print("STANDIN-JSON " + json.dumps({"bounded": True, "evaluations": total, "bound": f"{N} random layouts (<= 3 components, <= 2 feedbacks and <= 2 reset markers each, inherited markers), random raising sets, FMS on/off; one enable / enabled iteration / periodics-only iteration / disable each"}))
+print("STANDIN-JSON " + json.dumps({"bounded": True, "evaluations": total, "bound": f"{N} random layouts (<= 3 components, <= 3 feedbacks incl. a list mutated in place and <= 2 reset markers each, inherited markers), random raising sets, FMS on/off; one enable / enabled iteration / periodics-only iteration / disable each"}))
